@@ -3,7 +3,7 @@ C11 — property theorems.  Vocabulary in Spec.lean, proofs in Proofs*.lean.
 The model (Model.lean) is of /repo's code AFTER the three `fix:` commits of this property; the write order before the
 first fix is refuted by `old_write_order_not_crash_safe`.
 -/
-import YouVerif.C11.Proofs3
+import YouVerif.C11.Proofs9
 namespace YouVerif.C11
 
 /-- The write list the model reports for an import is exactly what changed the database: replaying it on the start
@@ -13,84 +13,116 @@ theorem writes_sound (W : World) (nd : Node) (chain : List Nat) :
     (insertChain W nd chain).nd.db = nd.db.applyAll (insertChain W nd chain).ws :=
   insertChain_sound W nd chain
 
-/-- Writes that only add block data, state or the head-header marker (everything WriteBlockWithoutState, the first
-    half of WriteBlockWithState and loadLastState write) keep a consistent chain consistent, whatever they add. -/
+/-- Writes that only add block data, state or the head-header marker keep a consistent chain consistent. -/
 theorem data_write_consistent (W : World) (db : DB) (w : Wr) (hw : DataWrite w) (head : Nat)
     (h : Consistent W db head) : Consistent W (db.apply w) head ∧ (db.apply w).headBlk = db.headBlk :=
   ⟨consistent_apply_data W db w hw head h, (data_fields db w hw).2.2.1⟩
 
-/-- import_inv, head-extending case: WriteBlockWithState of a block whose parent is the head moves a consistent chain
-    to a consistent chain whose head is the new block, and persists it as head. -/
-theorem import_inv_partial (W : World) (nd : Node) (id : Nat)
-    (hp : (W.blk id).parent = nd.cur) (hn : (W.blk id).num = (W.blk nd.cur).num + 1)
-    (h : Consistent W nd.db nd.cur) :
-    Consistent W (writeBlockWithState W nd id).nd.db id ∧ (writeBlockWithState W nd id).nd.db.headBlk = some id ∧
-      (writeBlockWithState W nd id).nd.cur = id :=
-  ⟨(wbs_extend_consistent W nd id hp hn h).1, (wbs_extend_consistent W nd id hp hn h).2, (wbs_extend_db W nd id hp).choose_spec.2.2.1⟩
+/-- import_inv (FULL): for every world (engine, block universe), node and offered chain - through the whole dispatch:
+    known, future, unknown ancestor, pruned ancestor, exist-canonical, side chain with re-import, longest-chain rule,
+    head extension and reorganisation - a node whose head heads a consistent chain (index parent-linked from genesis to
+    head, head state available, tx lookups pointing into canonical blocks) and is the persisted head block is taken to
+    such a node. -/
+theorem import_inv (W : World) (nd : Node) (chain : List Nat) (h : NodeInv W nd) :
+    NodeInv W (insertChain W nd chain).nd :=
+  (insertChain_good W _ _ (stepOK_nodeInv W) nd chain h).1
 
-/-- crash_consistent, head-extending case: after ANY number k of primitive writes of such an import the database
-    satisfies the persistent invariant (its head block heads a consistent chain, head state available, lookups sound). -/
-theorem crash_consistent_partial (W : World) (nd : Node) (id : Nat)
-    (hp : (W.blk id).parent = nd.cur) (hn : (W.blk id).num = (W.blk nd.cur).num + 1)
-    (h : Consistent W nd.db nd.cur) (hh : nd.db.headBlk = some nd.cur) :
-    ∀ k, DBInv W (nd.db.applyAll ((writeBlockWithState W nd id).ws.take k)) :=
-  wbs_extend_safe W nd id hp hn h hh
+/-- crash_consistent (FULL): after ANY number k of primitive writes of ANY import, the database satisfies the persistent
+    invariant, restart succeeds without repair (its only write is the head-header marker), and the restarted node holds
+    a consistent chain headed by the persisted head block. -/
+theorem crash_consistent (W : World) (hg : (W.blk genesisId).num = 0) (nd : Node) (chain : List Nat) (h : NodeInv W nd)
+    (k : Nat) :
+    DBInv W (nd.db.applyAll ((insertChain W nd chain).ws.take k)) ∧
+    ∃ r, recover W (nd.db.applyAll ((insertChain W nd chain).ws.take k)) = some r ∧ NodeInv W r.nd ∧
+      r.ws = [Wr.headHdr r.nd.cur] := by
+  have hsafe := (insertChain_good W _ _ (stepOK_nodeInv W) nd chain h).2.2 k
+  refine ⟨hsafe, ?_⟩
+  obtain ⟨head, hh, hc⟩ := hsafe
+  obtain ⟨r, hr, e1, e2, e3, e4⟩ := recover_of_dbinv W _ hg head hh hc
+  exact ⟨r, hr, by unfold NodeInv; rw [e1]; exact ⟨e3, e4⟩, by rw [e1]; exact e2⟩
 
-/-- crash prefixes compose: if every prefix of `a` is safe from `db` and every prefix of `b` is safe from the database
-    after `a`, every prefix of `a ++ b` is safe. -/
-theorem crash_prefixes_compose (W : World) (db : DB) (a b : List Wr) (ha : SafeWrites W db a)
-    (hb : SafeWrites W (db.applyAll a) b) : SafeWrites W db (a ++ b) :=
-  safe_append W db a b ha hb
+/-- Every node reachable from the committed genesis by imports and by restarts after a crash at any write prefix of any
+    import holds a consistent chain. -/
+theorem reachable_consistent (W : World) (hg : (W.blk genesisId).num = 0) (nd : Node) (h : Reach W nd) :
+    Consistent W nd.db nd.cur ∧ nd.db.headBlk = some nd.cur :=
+  reach_nodeInv W hg nd h
 
-/-- Restart on a database that satisfies the persistent invariant succeeds without repair: the recovered head is the
-    persisted head block, the only write is the head-header marker, and the chain is consistent. -/
+/-- not_wedged (a single block imported on the direct path - head extension or reorganisation; `Direct` lists the facts:
+    pre-check, header and body verdicts ok, version look-up, execution, successful WriteBlockWithState): after a crash at
+    ANY prefix k of its write list, restart and re-import of the interrupted block give EXACTLY the persistent database and
+    the head of the node that never crashed (hence the same state), and that head is the block. -/
+theorem not_wedged (W : World) (hg : (W.blk genesisId).num = 0) (nd : Node) (id : Nat) (hinv : NodeInv W nd)
+    (hd : Direct W nd id) (hfresh : ∀ n, nd.db.canon n ≠ some id) (k : Nat) :
+    ∃ r, recover W (nd.db.applyAll ((insertChain W nd [id]).ws.take k)) = some r ∧
+      (insertChain W r.nd [id]).nd.db = (insertChain W nd [id]).nd.db ∧
+      (insertChain W r.nd [id]).nd.cur = (insertChain W nd [id]).nd.cur ∧
+      (insertChain W nd [id]).nd.cur = id := by
+  obtain ⟨r, a, b, c, d, _⟩ := not_wedged_core W nd id hg hinv hd hfresh k
+  exact ⟨r, a, b, c, d⟩
+
+/-- not_wedged, the further block: when the in-memory future-block queue was empty (always, under the solo engine) the
+    crashed-and-recovered node is the SAME node as the one that never crashed, so every further import - in particular one
+    further valid block - behaves identically. -/
+theorem not_wedged_further (W : World) (hg : (W.blk genesisId).num = 0) (nd : Node) (id : Nat) (hinv : NodeInv W nd)
+    (hd : Direct W nd id) (hfresh : ∀ n, nd.db.canon n ≠ some id) (hfut : nd.fut = []) (k : Nat) :
+    ∃ r, recover W (nd.db.applyAll ((insertChain W nd [id]).ws.take k)) = some r ∧
+      ∀ ch, insertChain W (insertChain W r.nd [id]).nd ch = insertChain W (insertChain W nd [id]).nd ch := by
+  obtain ⟨r, a, b, c, _, e, f⟩ := not_wedged_core W nd id hg hinv hd hfresh k
+  refine ⟨r, a, fun ch => ?_⟩
+  rw [node_ext _ _ b c (by rw [e, f, hfut]; rfl)]
+
+/-- invalid_never_canonical (CONDITIONAL on the open finding F-C11b): if no two block identities claim the same state
+    root, then in every reachable node (imports and crash-restarts) every canonical block from 1 to the head has a correct
+    transaction root, executed and state-validated successfully, and is numbered parent + 1. -/
+theorem invalid_never_canonical (W : World) (hg : (W.blk genesisId).num = 0) (hinj : RootsInjective W) (nd : Node)
+    (hr : Reach W nd) (n h : Nat) (hpos : 0 < n) (hle : n ≤ (W.blk nd.cur).num) (hc : nd.db.canon n = some h) :
+    Valid W h := by
+  obtain ⟨hinv, hk⟩ := reach_pv W hg hinj nd hr
+  obtain ⟨_, hv⟩ := validChain_of_trusted W nd.db nd.cur hg hinv.1.index hk hinv.1.state
+    ((W.blk nd.cur).num - n) n h (by omega) hc
+  obtain ⟨⟨a, b⟩, c⟩ := hv hpos
+  exact ⟨a, b, c⟩
+
+/-- Restart on a database that satisfies the persistent invariant succeeds without repair. -/
 theorem restart_on_consistent (W : World) (db : DB) (hg : (W.blk genesisId).num = 0) (head : Nat)
     (hh : db.headBlk = some head) (hc : Consistent W db head) :
     ∃ r, recover W db = some r ∧ r.nd.cur = head ∧ r.ws = [Wr.headHdr head] ∧ Consistent W r.nd.db head ∧
       r.nd.db.headBlk = some head :=
   recover_of_dbinv W db hg head hh hc
 
-/-- invalid_never_canonical, the block being imported: insertChain's loop writes a block with state only after
-    execution and state validation succeeded on the parent's available state, and ValidateBody = ok implies a correct
-    transaction root and a stored parent with state.  (Blocks that become canonical as ANCESTORS in a reorg are not
-    covered: see `invalid_never_canonical_statement`.) -/
-theorem invalid_never_head_partial (W : World) (nd : Node) (prev : Option Nat) (id : Nat) (r : Res)
-    (h : processBlock W nd prev id = some r) (hw : r.ws ≠ []) (hv : validateBody W nd.db id = .ok) :
-    (W.blk id).execOK = true ∧ (W.blk id).txRootOK = true ∧ r = writeBlockWithState W nd id :=
-  ⟨(processBlock_writes W nd prev id r h hw).1, (validateBody_ok W nd.db id hv).1, (processBlock_writes W nd prev id r h hw).2.2⟩
+/-- crash prefixes compose -/
+theorem crash_prefixes_compose (W : World) (db : DB) (a b : List Wr) (ha : SafeWrites W db a)
+    (hb : SafeWrites W (db.applyAll a) b) : SafeWrites W db (a ++ b) :=
+  safe_append W db a b ha hb
 
--- ---- full statements not proved in the time available (type-checked; sampled by the correspondence + oracle) --------
+-- ---- the side condition of invalid_never_canonical is necessary: F-C11b on the model ----------------------------------------
 
-/-- reachable nodes: started on the committed genesis, then any imports and restarts -/
-inductive Reach (W : World) : Node → Prop where
-  | genesis : Reach W { db := DB.genesis W, cur := genesisId, fut := [] }
-  | insert (nd : Node) (chain : List Nat) : Reach W nd → Reach W (insertChain W nd chain).nd
-  | restart (nd : Node) (k : Nat) (chain : List Nat) (r : Res) : Reach W nd →
-      recover W (nd.db.applyAll ((insertChain W nd chain).ws.take k)) = some r → Reach W r.nd
+/-- header-checking engine; every block is empty and claims the genesis state root; block 4 has a wrong transaction root -/
+def ghostWorld : World :=
+  { blk := fun id => match id with
+      | 0 => { parent := 0, num := 0, root := 0, txs := [], txRootOK := true, execOK := true, tclass := 0, older := false }
+      | 1 => { parent := 0, num := 1, root := 0, txs := [], txRootOK := true, execOK := true, tclass := 0, older := false }
+      | 2 => { parent := 1, num := 2, root := 0, txs := [], txRootOK := true, execOK := true, tclass := 0, older := false }
+      | 4 => { parent := 0, num := 1, root := 0, txs := [], txRootOK := false, execOK := true, tclass := 0, older := false }
+      | 6 => { parent := 4, num := 2, root := 0, txs := [], txRootOK := true, execOK := true, tclass := 0, older := false }
+      | 8 => { parent := 6, num := 3, root := 0, txs := [], txRootOK := true, execOK := true, tclass := 0, older := false }
+      | _ => Blk.unknown,
+    strict := true }
 
-/-- FULL import_inv: every reachable node holds a consistent chain.  Missing: the reorg case of the batch (the walk
-    `reorgChains` returns exactly the two branches below the common ancestor) and the induction through insertChain's
-    dispatch. -/
-def import_inv_statement : Prop := ∀ W nd, (W.blk genesisId).num = 0 → Reach W nd → Consistent W nd.db nd.cur
+def ghostRun : Node :=
+  let n0 : Node := { db := DB.genesis ghostWorld, cur := 0, fut := [] }
+  let n1 := (insertChain ghostWorld n0 [1, 2]).nd
+  let n2 := (insertChain ghostWorld n1 [4]).nd      -- stored by the side-chain path (exist canonical), never body-validated
+  let n3 := (insertChain ghostWorld n2 [6]).nd      -- stored by the side-chain path
+  (insertChain ghostWorld n3 [8]).nd                -- direct path: its parent 6 "has block and state"; reorg makes 4 canonical
 
-/-- FULL crash_consistent: from a reachable node, every crash prefix of every import restarts, and restarts consistent.
-    Missing: as import_inv_statement (each batch of a run is a consistent switch). -/
-def crash_consistent_statement : Prop := ∀ W nd chain k, (W.blk genesisId).num = 0 → Reach W nd →
-  ∃ r, recover W (nd.db.applyAll ((insertChain W nd chain).ws.take k)) = some r ∧ Consistent W r.nd.db r.nd.cur
-
-/-- FULL not_wedged: after a crash at any prefix, re-importing the interrupted blocks and one further valid child of the
-    uncrashed head gives the head of the node that never crashed. -/
-def not_wedged_statement : Prop := ∀ W nd chain k c r, (W.blk genesisId).num = 0 → Reach W nd →
-  recover W (nd.db.applyAll ((insertChain W nd chain).ws.take k)) = some r →
-  Valid W c → (W.blk c).parent = (insertChain W nd chain).nd.cur →
-  (insertChain W (insertChain W r.nd chain).nd [c]).nd.cur = (insertChain W (insertChain W nd chain).nd [c]).nd.cur
-
-/-- FULL invalid_never_canonical.  NOT expected to be provable as it stands: a side block stored without state whose
-    claimed state root is available (an empty block, or a block claiming another block's root) is never validated and
-    becomes canonical as an ancestor in a later reorg (upstream's "ghost state" family); kept as the statement the
-    harness oracle evaluates on every generated case. -/
-def invalid_never_canonical_statement : Prop := ∀ W nd n h, (W.blk genesisId).num = 0 → Reach W nd →
-  0 < n → n ≤ (W.blk nd.cur).num → nd.db.canon n = some h → Valid W h
+/-- F-C11b on the model: the block with the wrong transaction root is canonical at height 1 under head 8.  Replayed on the
+    real code by the harness' built-in probe (known finding, matcher ghost-state-ancestor). -/
+theorem ghost_state_counterexample :
+    ghostRun.cur = 8 ∧ ghostRun.db.canon 1 = some 4 ∧ (ghostWorld.blk 4).txRootOK = false ∧ ¬ RootsInjective ghostWorld := by
+  refine ⟨by decide, by decide, by decide, ?_⟩
+  intro h
+  exact absurd (h 1 2 (by decide)) (by decide)
 
 -- ---- the write order before the fix is not crash safe -------------------------------------------------------------------
 
@@ -131,21 +163,19 @@ theorem old_write_order_not_crash_safe :
 
 -- ---- non-vacuity ---------------------------------------------------------------------------------------------------------
 
-/-- the hypotheses of import_inv_partial / crash_consistent_partial / restart_on_consistent are satisfiable: the committed
-    genesis database is consistent, and block 1 of `cexWorld` extends it -/
+/-- the committed genesis database satisfies the node invariant (hypothesis of import_inv / crash_consistent / not_wedged) -/
 theorem genesis_consistent (W : World) (hg : (W.blk genesisId).num = 0) :
-    Consistent W (DB.genesis W) genesisId ∧ (DB.genesis W).headBlk = some genesisId := by
-  refine ⟨⟨⟨by simp [Stored, DB.genesis], by simp [DB.genesis, hg], ?_, by simp [DB.genesis]⟩, by simp [DB.genesis], ?_⟩, rfl⟩
-  · intro n hn
-    have : n = 0 := by omega
-    subst this
-    exact ⟨genesisId, by simp [DB.genesis], by simp [Stored, DB.genesis], hg, fun h => absurd h (by decide)⟩
-  · intro t h n i ht
-    simp [DB.genesis] at ht
+    NodeInv W { db := DB.genesis W, cur := genesisId, fut := [] } :=
+  genesis_consistent' W hg
 
-example : (cexWorld.blk 1).parent = genesisId ∧ (cexWorld.blk 1).num = (cexWorld.blk genesisId).num + 1 := by decide
+def cexGenesis : Node := { db := DB.genesis cexWorld, cur := 0, fut := [] }
+def cexTrunk : Node := (insertChain cexWorld cexGenesis [1, 2, 3]).nd
 
-/-- test on literals: the model imports the trunk and then reorganises to the fork in one batch -/
-example : ((insertChain cexWorld { db := DB.genesis cexWorld, cur := 0, fut := [] } [1, 2, 3]).nd.cur = 3) := by decide
+/-- tests on literals: `Direct` holds for a head extension (block 1 on the genesis) and for a reorganisation (fork block 4
+    offered to the node whose head is 3), block 4 is fresh there, and the roots of `cexWorld`'s defined blocks are distinct -/
+example : Direct cexWorld cexGenesis 1 := ⟨by decide, by decide, by decide, by decide, by decide, by decide, by decide⟩
+example : Direct cexWorld cexTrunk 4 := ⟨by decide, by decide, by decide, by decide, by decide, by decide, by decide⟩
+example : cexTrunk.cur = 3 ∧ (cexWorld.blk 4).parent ≠ cexTrunk.cur ∧ (insertChain cexWorld cexTrunk [4]).nd.cur = 4 := by decide
+example : ∀ n, n ≤ 5 → cexTrunk.db.canon n ≠ some 4 := by decide
 
 end YouVerif.C11
